@@ -428,7 +428,7 @@ static void do_dec(const unsigned char *data, int len, int fsz, int fec, int kin
    js_rng("f0", D0); js_rng("fg", DG); js_rng("f16", D16); js_rng("f24", D24);
    js_int("l0", get_dur(D0)); js_int("lg", get_dur(DG)); js_int("l16", get_dur(D16)); js_int("l24", get_dur(D24));
    {
-      rat_t hd, tl; long nf = 0, zb = 0, o16 = 0, w16 = 0, m16 = 32767, o24 = 0, w24 = 0, m24 = 32767;
+      rat_t hd, tl; long nf = 0, zb = 0, zbh = 0, o16 = 0, w16 = 0, m16 = 32767, o24 = 0, w24 = 0, m24 = 32767;
       /* "head": the first 5 ms of a packet decoded normally (where the decoder cross-fades after a mode
          change); a packet decoded for its FEC data counts as head as a whole */
       int head = (kind == 2) ? n : (fs / 200) * ch;
@@ -436,7 +436,7 @@ static void do_dec(const unsigned char *data, int len, int fsz, int fec, int kin
       for (i = 0; i < n; i++) {
          float a = y0[i], b = yg[i];
          if (!(a == a) || !(b == b) || fabsf(a) > 3e38f || fabsf(b) > 3e38f) { nf++; continue; }
-         if (a == 0.f) { if (b != 0.f) zb++; }
+         if (a == 0.f) { if (b != 0.f) { if (i < head) zbh++; else zb++; } }
          else rat_add(i < head ? &hd : &tl, a, b);
          if (fabsf(b) > 1.0f) {             /* beyond the 16-bit container */
             int v = s16[i], av = v < 0 ? -v : v;
@@ -451,7 +451,7 @@ static void do_dec(const unsigned char *data, int len, int fsz, int fec, int kin
             if ((av >> 16) < m24) m24 = (long)(av >> 16);
          }
       }
-      js_int("nf", nf); js_int("zb", zb);
+      js_int("nf", nf); js_int("zb", zb); js_int("zbh", zbh);
       rat_log(&hd, "hn", "hq", "hs", "hneg"); rat_log(&tl, "tn", "tq", "ts", "tneg");
       js_int("o16", o16); js_int("w16", w16); js_int("wh16", 0); js_int("m16", m16); js_int("mh16", 32767); js_int("o24", o24); js_int("w24", w24); js_int("m24", m24);
    }
